@@ -131,6 +131,11 @@ func Setup(dir string) (*PKI, error) {
 	return pki, pkiErr
 }
 
+// ServerTLS is the TLS configuration of a harness server with the good certificate.
+func ServerTLS(p *PKI) *tls.Config {
+	return &tls.Config{Certificates: []tls.Certificate{p.Good}, MinVersion: tls.VersionTLS12}
+}
+
 // ---------------------------------------------------------------------------------------------
 // cases
 
